@@ -149,3 +149,41 @@ package storage
 //@   requires s != nil
 //@   ensures [C09.stream.copy] result != nil && fresh(result) && sameSlice(result.Kvs, s.Kvs) && result.More == s.More && result.Count == s.Count
 //@   modifies nothing
+
+// ---------------------------------------------------------------- compaction events reach the log cache (C06)
+
+// The log cache may serve an index only while it is still in the log: the shard's cache is dropped
+// when dragonboat reports a compaction. The report travels as an event value over a channel.
+//@ import raftio "github.com/lni/dragonboat/v4/raftio"
+//@ import logreader "github.com/jamf/regatta/storage/logreader"
+//@ import cluster "github.com/jamf/regatta/storage/cluster"
+//@ import storage "github.com/jamf/regatta/storage"
+// ghost call log of the cache's invalidation entry points
+//@ ghostfield any.ncompact Int
+//@ ghostfield any.lastCompact uint64
+//@ func logreader.(*ShardCache).LogCompacted
+//@   assumed
+//@   params l, shardID
+//@   ensures l.ncompact == old(l.ncompact) + 1 && l.lastCompact == shardID
+//@   modifies l.ncompact, l.lastCompact
+//@ func logreader.(*ShardCache).NodeDeleted
+//@   assumed
+//@   modifies nothing
+//@ func cluster.(*Cluster).Notify
+//@   assumed
+//@   modifies nothing
+
+// the listener: the event put on the channel names the shard and the replica of the report
+//@ func (*events).LogCompacted
+//@   requires e != nil && !chanClosed(e.eventsCh)      // the event channel is never closed
+//@   before send assert [C06.event.faithful] typeIs(sent, logCompacted) && asType(sent, logCompacted).ShardID == info.ShardID && asType(sent, logCompacted).ReplicaID == info.ReplicaID && sentTo == e.eventsCh
+//@   modifies family(CH_len)
+
+// the dispatcher: a compaction event of THIS node's replica invalidates the cache of exactly that shard
+//@ func (*events).dispatchEvents
+//@   maypanic
+//@   requires e != nil && e.engine != nil && e.engine.log != nil && e.engine.Cluster != nil
+//@   before logreader.(*ShardCache).LogCompacted assert [C06.event.shard] typeIs(evt, storage.logCompacted) && shardID == asType(evt, storage.logCompacted).ShardID
+//@   modifies family(CH_len), family(CH_closed), e.engine.LogCache.ncompact, e.engine.LogCache.lastCompact
+//@   loop 0 invariant e.engine == old(e.engine) && e.engine.LogCache == old(e.engine.LogCache) && e.engine.log != nil && e.engine.Cluster != nil
+//@   loop 0 step [C06.event.dispatch] typeIs(evt, logCompacted) && asType(evt, logCompacted).ReplicaID == e.engine.cfg.NodeID && e.engine.LogCache != nil ==> e.engine.LogCache.ncompact == prev(e.engine.LogCache.ncompact) + 1 && e.engine.LogCache.lastCompact == asType(evt, logCompacted).ShardID
